@@ -505,11 +505,107 @@ fn value_for(rng: &mut Rng, tag: u128, n_out: usize) -> u128 {
   }
 }
 
-/// an integer sequence around the message grammar; returns (ints, description of what was bent)
+/// tag/value pairs of a message whose flags and fields fit together (an etching's
+/// fields only with the Etching flag, terms only with the Terms flag), in random
+/// order, each value around its acceptance boundary; bent in at most a few places
+fn coherent_fields(rng: &mut Rng, n_out: usize) -> Vec<u128> {
+  let etching = rng.chance(2, 3);
+  let terms = etching && rng.chance(1, 2);
+  let turbo = etching && rng.chance(1, 2);
+  let mut pairs: Vec<(u128, u128)> = Vec::new();
+  let mut flags = u128::from(etching) | u128::from(terms) << 1 | u128::from(turbo) << 2;
+  match rng.below(24) {
+    0 => flags |= 1 << rng.range(3, 127),
+    1 => flags = (flags & !1) | 2,
+    2 => flags = (flags & !1) | 4,
+    _ => {}
+  }
+  if flags != 0 || rng.chance(1, 8) {
+    pairs.push((2, flags));
+  }
+  let mild = |rng: &mut Rng, tag: u128| -> u128 {
+    // mostly acceptable values
+    match tag {
+      1 => rng.below(39) as u128,
+      3 => rng.below(0x800_0000) as u128,
+      5 => a_char(rng) as u128,
+      12 | 14 | 16 | 18 => edge64(rng) as u128,
+      22 => rng.below(n_out as u64) as u128,
+      _ => {
+        if rng.chance(1, 2) {
+          rng.below(1 << 20) as u128
+        } else {
+          edge128(rng)
+        }
+      }
+    }
+  };
+  let add = |rng: &mut Rng, pairs: &mut Vec<(u128, u128)>, tag: u128| {
+    let v = if rng.chance(1, 8) { value_for(rng, tag, n_out) } else { mild(rng, tag) };
+    pairs.push((tag, v));
+  };
+  if etching {
+    for tag in [4u128, 1, 3, 5, 6] {
+      if rng.chance(1, 2) {
+        add(rng, &mut pairs, tag);
+      }
+    }
+  }
+  if terms {
+    for tag in [10u128, 8, 12, 14, 16, 18] {
+      if rng.chance(1, 2) {
+        add(rng, &mut pairs, tag);
+      }
+    }
+    // supply = premine + cap * amount right at the u128 boundary
+    if rng.chance(1, 5) {
+      pairs.retain(|(t, _)| *t != 6 && *t != 8 && *t != 10);
+      let cap = u128::from(rng.u64_any_width()).max(1);
+      let amount = u128::from(rng.u64_any_width() >> 1).max(1);
+      let premine = (u128::MAX - cap * amount).wrapping_add(rng.below(3) as u128).wrapping_sub(1);
+      pairs.push((8, cap));
+      pairs.push((10, amount));
+      pairs.push((6, premine));
+    }
+  }
+  if rng.chance(1, 3) {
+    let block = if rng.chance(1, 8) { 0 } else { edge64(rng) as u128 };
+    let tx = if block == 0 && rng.chance(3, 4) { 0 } else { edge32(rng) as u128 };
+    pairs.push((20, block));
+    pairs.push((20, tx));
+  }
+  if rng.chance(1, 3) {
+    add(rng, &mut pairs, 22);
+  }
+  if rng.chance(1, 8) {
+    pairs.push((*rng.pick(&[7u128, 127, 129, u128::MAX, 9]), edge128(rng)));
+  }
+  if rng.chance(1, 20) {
+    pairs.push((*rng.pick(&[24u128, 126, 128, 26]), edge128(rng)));
+  }
+  if rng.chance(1, 20) && !pairs.is_empty() {
+    let d = *rng.pick(&pairs);
+    pairs.push((d.0, value_for(rng, d.0, n_out)));
+  }
+  // order between different tags is irrelevant: shuffle, keeping the two mint values in order
+  for i in (1..pairs.len()).rev() {
+    let j = rng.below(i as u64 + 1) as usize;
+    if pairs[i].0 != pairs[j].0 {
+      pairs.swap(i, j);
+    }
+  }
+  pairs.iter().flat_map(|(t, v)| [*t, *v]).collect()
+}
+
+/// an integer sequence around the message grammar
 fn message_ints(rng: &mut Rng, n_out: usize) -> Vec<u128> {
   let mut ints = Vec::new();
-  let n_fields = rng.below(9);
-  let mut etching_like = rng.chance(1, 2);
+  let coherent = rng.chance(3, 5);
+  if coherent {
+    ints = coherent_fields(rng, n_out);
+  }
+  let n_fields = if coherent { 0 } else { rng.below(9) };
+  let mut etching_like = !coherent && rng.chance(1, 2);
   for _ in 0..n_fields {
     let tag = match rng.below(10) {
       0 => *rng.pick(&[24u128, 126, 128, 1 << 64, u128::MAX - 1, 26]), // unknown even
@@ -583,6 +679,10 @@ fn message_ints(rng: &mut Rng, n_out: usize) -> Vec<u128> {
 fn tx_case(rng: &mut Rng, script: Vec<u8>) -> Line {
   let n_pre = if rng.chance(1, 2) { 0 } else { rng.below(3) as usize };
   let n_post = rng.below(3) as usize;
+  tx_case_n(rng, script, n_pre, n_post)
+}
+
+fn tx_case_n(rng: &mut Rng, script: Vec<u8>, n_pre: usize, n_post: usize) -> Line {
   let mut ss: Vec<Vec<u8>> = (0..n_pre).map(|_| filler(rng)).collect();
   ss.push(script);
   ss.extend((0..n_post).map(|_| any_script(rng)));
@@ -650,7 +750,7 @@ fn random_script(rng: &mut Rng) -> Vec<u8> {
 
 pub fn gen(rng: &mut Rng, tier: &str) -> Vec<Line> {
   let thorough = tier == "thorough";
-  let scale: usize = if thorough { 40 } else { 1 };
+  let scale: usize = if thorough { 50 } else { 1 };
   let mut v = Vec::new();
 
   // ---- op 1: structured runestones
@@ -687,9 +787,10 @@ pub fn gen(rng: &mut Rng, tier: &str) -> Vec<Line> {
   }
 
   // ---- op 0: integer sequences around the message grammar
-  for _ in 0..9_000 * scale {
-    let n_out_hint = rng.range(1, 5) as usize;
-    let ints = message_ints(rng, n_out_hint);
+  for _ in 0..14_000 * scale {
+    let n_pre = if rng.chance(1, 2) { 0 } else { rng.below(3) as usize };
+    let n_post = rng.below(3) as usize;
+    let ints = message_ints(rng, n_pre + 1 + n_post);
     let mut payload = varints(&ints);
     match rng.below(40) {
       0 => payload.push(0x80),
@@ -714,7 +815,7 @@ pub fn gen(rng: &mut Rng, tier: &str) -> Vec<Line> {
       }
       _ => {}
     }
-    v.push(tx_case(rng, s));
+    v.push(tx_case_n(rng, s, n_pre, n_post));
   }
   // ---- op 0: random scripts
   for _ in 0..5_000 * scale {
